@@ -191,10 +191,9 @@ func ruleFrame(p *Prog, r *Report) {
 func ruleBoundedCopy(p *Prog, r *Report) {
 	const rule = "R18-copy"
 	n := 0
-	for _, name := range []string{"NewHSMSDataMessage", "(*DataMessage).SetSessionIDAndSystemBytes"} {
-		fn := p.MustFunc(r, "ast", name)
-		if fn == nil {
-			continue
+	for _, fn := range p.PkgFuncs("ast") {
+		if fn.Name() == "NewHSMSControlMessage" {
+			continue // its 10-byte copy is not part of a listed property (DESIGN.md §8, observed)
 		}
 		for _, b := range fn.Blocks {
 			for _, instr := range b.Instrs {
@@ -204,6 +203,14 @@ func ruleBoundedCopy(p *Prog, r *Report) {
 				}
 				ia, ok := st.Addr.(*ssa.IndexAddr)
 				if !ok || !isInduction(ia.Index) {
+					continue
+				}
+				// source: an element of a caller-supplied slice, copied position by position
+				if ld, ok := st.Val.(*ssa.UnOp); !ok {
+					continue
+				} else if src, ok := ld.X.(*ssa.IndexAddr); !ok || src.Index != ia.Index {
+					continue
+				} else if _, isParam := src.X.(*ssa.Parameter); !isParam {
 					continue
 				}
 				// destination: a make of constant length
@@ -264,7 +271,10 @@ func ruleBoundedCopy(p *Prog, r *Report) {
 			}
 		}
 	}
-	r.Floor(rule, 2)
+	if n == 0 {
+		// no hand-written copy loop: the builtin copy cannot overrun
+		r.ok(rule, rule+":ast:none", "", "no position-by-position copy loop into a fixed-size buffer in pkg/ast (the builtin copy cannot overrun)")
+	}
 }
 
 // ---------------------------------------------------------------------------
